@@ -8,7 +8,7 @@ import corr as corr_mod
 
 
 def run_statement_property(run, *, prop, propfile, module, theorems, header, cases, rule, assumptions=(), extra_targets=(),
-                           what="the property's statement", extra_cov=None, extra_violations=()):
+                           what="the property's statement", extra_cov=None, extra_violations=(), corr_import=None):
     """cases: iterable of dicts with keys
          label      : str (site / generator label)
          corr       : list of (obj, [(ctxname, ctx, mode)]) to tie Model.Render to the implementation (may be empty)
@@ -17,11 +17,13 @@ def run_statement_property(run, *, prop, propfile, module, theorems, header, cas
          describe   : dict written to the replay file when the statement is false
     """
     proofs_ok = core.proof_stage(run, propfile, module, theorems, extra_targets=list(extra_targets) + ["Base/Codes.v", "Model/Render.v"])
-    C = corr_mod.Corr(run, prop.lower())
+    C = corr_mod.Corr(run, prop.lower(), extra_import=corr_import)
     exprs, meta, dist = [], [], {}
     for c in cases:
-        for obj, cms in c.get("corr", []):
-            C.add(obj, cms, {"label": c["label"]})
+        for ent in c.get("corr", []):
+            obj, cms = ent[0], ent[1]
+            # (obj, ctx_modes[, ref, wrap]): ref is the object dumped (default obj), wrap a specification function applied to the dumped tree
+            C.add(obj, cms, {"label": c["label"]}, ref=(ent[2] if len(ent) > 2 else None), wrap=(ent[3] if len(ent) > 3 else None))
         exprs.append(c["expr"])
         meta.append(c)
         k = c["label"].split(":")[0]
